@@ -140,7 +140,7 @@ def _struct_class(layout, members):
             return dict(self.hw)
 
         def write_s(self, value):
-            self.hw = {k: int(v) for k, v in value.items()}
+            self.hw = {k: min(int(v), self.hwmax) for k, v in value.items()}
             return dict(self.hw)
         ns.update(read_s=read_s, write_s=write_s)
     else:
@@ -149,7 +149,7 @@ def _struct_class(layout, members):
                 return self.hw[k]
 
             def wfunc(self, value, k=k):
-                self.hw = dict(self.hw, **{k: int(value)})
+                self.hw = dict(self.hw, **{k: min(int(value), self.hwmax)})
                 return self.hw[k]
             ns['read_m_' + k] = rfunc
             ns['write_m_' + k] = wfunc
@@ -163,6 +163,7 @@ class StructWorld(World):
         self.layout = init['layout']
         self.m = self.add('m', _struct_class(self.layout, self.members))
         self.m.hw = {k: 0 for k in self.members}
+        self.m.hwmax = init['hwmax']
         self.startup(self.m)
         self.connect()
 
@@ -561,6 +562,13 @@ def _replay_group(item):
     return None
 
 
+_ITEMS = []      # filled before the worker processes are forked; workers receive indices only
+
+
+def _replay_index(i):
+    return _replay_group(_ITEMS[i])
+
+
 def _parse_behaviours(r):
     pat = '<<"BEH", "'
     res = []
@@ -602,7 +610,7 @@ def _random_trace(arg):
     variant = rnd.randrange(1 << 16)
     fresh = False
     if sub == 'LinkedStruct':
-        init = {'act': 'init', 'layout': rnd.choice(('combined', 'separate')),
+        init = {'act': 'init', 'layout': rnd.choice(('combined', 'separate')), 'hwmax': 7,
                 'exp': {'hw': {k: 0 for k in 'pqr'}}}
         mem = 'pqr'
 
@@ -758,7 +766,8 @@ def run(chk):
     # 3 random histories are recorded while nothing else needs the cores
     ntr, ln = (150, 30) if quick else (1500, 40)
     targs = [(m, chk.seed * 7919 + i * 4 + k, ln) for k, m in enumerate(SUBS) for i in range(ntr)]
-    res = pool_map(_replay_group, items)
+    _ITEMS[:] = items
+    res = pool_map(_replay_index, list(range(len(items))))
     for item, bad in zip(items, res):
         sub, variant, _, init, actions, _ = item
         chk.impl_traces += 1
@@ -793,7 +802,7 @@ def run(chk):
     timing['validate'] = round(time.time() - t0, 1)
     pool.shutdown()
     chk.assumptions += [
-        'hardware stubs are faithful (store what is written, return what is stored)',
+        'hardware stubs store what is written (the struct stub clips at HwMax) and return what is stored',
         'omit_unchanged_within = 0 (generalConfig.testinit): every announced value is delivered',
         'a value inside limits and datatype and not refused by a user hook is expected to be accepted',
         'client/driver path, class structure (same/mixin/derived), int/float datatype and driver style are chosen '
